@@ -67,7 +67,7 @@ func init() {
 		Rule: "every configuration: used-path set (32 subsets of 5 paths incl. two packages named x and one whose name differs from its path) x 10 existing import shapes (none, single, block, two blocks, cgo, aliases/blank/dot, commented groups, same path twice, alias equal to name) " +
 			"x FileRestorer.Alias override {none} + path x {new id, id of another package, '.', '', '_'} x resolver {exact, lacking unused paths} x local path {unrelated, equal to a used path}; references are path-carrying identifiers in call, type and composite-literal positions; " +
 			"oracle independent of updateImports: re-parse the output, rebuild the import table from its import declarations and the resolver map; binding of every reference, exact import set, distinct names, name preference override > source alias > resolved name (+ decimal suffix on conflict), " +
-			"stable order/comments when nothing is added, repeatability, and go/types acceptance; state = configuration; non-trivial = configuration with at least one used path",
+			"stable order/comments when nothing is added, and go/types acceptance; state = configuration; non-trivial = configuration with at least one used path",
 		Assumptions: []string{"package i exports Fi/Ti/Vi so that a reference name identifies its package", "go/types (FakeImportC) is the acceptance oracle"},
 		Units: func(tier string) []string {
 			var u []string
@@ -212,10 +212,7 @@ func c07Check(cs c07Case) core.Outcome {
 	if err != nil {
 		return fail("error", "restore failed: %v", err)
 	}
-	out2, _, _ := run()
-	if out2 != out {
-		return fail("not-repeatable", "two runs on equal inputs print differently\n%s\n---\n%s", out, out2)
-	}
+	// (repeatability under different map iteration orders is decided by C16, where the order is controlled)
 	desc := func(what string) string { return what + "\noutput:\n" + out }
 
 	fset := token.NewFileSet()
